@@ -435,7 +435,8 @@ def plan_for(tier, fmt="uvl"):
     cyc = {"uvl": (3, 6), "afm": (4, 6), "json": (6, 8), "fide": (6, 8), "glencoe": (6, 8)}[fmt]
     return [{"shard": i, "nshards": NSHARDS, "bases": (3 if tier == "quick" else 30) * k,
              "per_class": 1 if tier == "quick" else 2, "multi": (12 if tier == "quick" else 150) * k,
-             "cycles": cyc[0] if tier == "quick" else cyc[1], "large": 1 if tier == "quick" else 6,
+             "cycles": cyc[0] if tier == "quick" else cyc[1],
+             "large": (1 if fmt in ("uvl", "afm") else 4) if tier == "quick" else (6 if fmt in ("uvl", "afm") else 20),
              "sweep": (2500 if tier == "quick" else 10 ** 9)} for i in range(NSHARDS)]
 
 
@@ -543,7 +544,7 @@ def run_shard_for(fmt_name, prop, desc, acc, big_sizes=(20, 60)):
         # large models: 60-150 features with several injections (size/width/depth thresholds)
         for b in range(desc.get("large", 0)):
             r = rand.rng(seed, prop, "large", i, b)
-            base = inject.base(r, 60, 230 if fmt_name != "uvl" else 90)
+            base = inject.base(r, 60 if b % 2 == 0 else 130, (230 if b % 2 == 0 else 320) if fmt_name != "uvl" else 90)
             if judge(fmt, base, desc["cycles"], work):
                 acc.fail("large-base", "same-model", fmt.name, [], "large-base-fails", "a 60-150 feature base fails",
                          {"fmt": fmt_name, "spec": base, "cycles": desc["cycles"], "tags": []}, S.digest(base))
